@@ -148,7 +148,7 @@ def directed(pid, tier="quick"):
     if pid in ("C01", "C05", "C06"):
         S += [shared_tx_height(), prefix_pair("regtest"), prefix_pair("mainnet"), prefix_pair("testnet")]
     if pid in ("C04", "C05"):
-        S += [balance_fork()]
+        S += [balance_fork(), heavy_short_vs_light_long("regtest"), heavy_short_vs_light_long("testnet")]
     if pid in ("C02", "C05", "C01", "C06"):
         S += [heavy_short_vs_light_long("regtest"), heavy_short_vs_light_long("mainnet")]
     if pid in ("C07", "C08", "C05"):
@@ -566,3 +566,64 @@ def stability_history(seed, net=None):
     sc = w.scenario(f"stability-{net}-{seed}", {"thr": thr, "seed": seed, "gate": False}, cmds)
     sc["blocks"].insert(0, {"id": 1, "parent": 0, "diff": anchor_diff, "time": 0, "txs": [1]})
     return sc
+
+
+# ---------------------------------------------------------------------------------------------
+# complete enumeration of small fork trees (shape x arrival order x difficulty assignment)
+# ---------------------------------------------------------------------------------------------
+import itertools
+
+
+def enum_tree_specs(maxb, diffs):
+    """All (parents, difficulties) for trees of 1..maxb blocks above genesis: block i+1 (id i+2) extends any
+    earlier block, which enumerates every shape in every arrival order."""
+    out = []
+    for nb in range(1, maxb + 1):
+        for parents in itertools.product(*[range(1, i + 2) for i in range(nb)]):
+            for ds in itertools.product(diffs, repeat=nb):
+                out.append((parents, ds))
+    return out
+
+
+def enum_tree_scenario(spec, idx, net, thr, anchor_diff=1):
+    parents, ds = spec
+    rng = random.Random(idx)
+    w = World(rng, net=net, naddr=2, prefix_pair=False)
+    w.blocks[1]["diff"] = anchor_diff
+    cmds = [{"c": "tick", "dt": 1000000}]
+    nb = len(parents)
+    for i, (p, d) in enumerate(zip(parents, ds)):
+        b = w.mine(p, ntx=0, coinbase_out=cb(1 + (i % 2), 10 + i), diff=d, time=w.blocks[p]["time"] + 600)
+        cmds.append({"c": "push", "b": b})
+        if thr < 50:
+            cmds.append({"c": "ingest"})
+        last = i == nb - 1
+        if last or rng.random() < 0.35:
+            cmds.append(q("info"))
+            cmds.append(q("headers", s=0, e=-1))
+            cmds.append(q("headers", s=rng.randint(0, nb), e=rng.choice([-1, rng.randint(0, nb + 1)])))
+            for mc in ([-1, 0, 1, 2, 3, nb + 1] if last else [-1, rng.choice([1, 2])]):
+                cmds.append(q("utxos", addr=1, mc=mc, mode="query"))
+                cmds.append(q("balance", addr=1, mc=mc, mode="query"))
+            if last:
+                cmds.append(q("utxos", addr=2, mc=1, mode="query"))
+                cmds.append(q("balance", addr=2, mc=2, mode="query"))
+    sc = w.scenario(f"enum-{net}-thr{thr}-{idx}", {"thr": thr, "seed": idx, "gate": False, "lazy": True, "book": nb <= 3}, cmds)
+    sc["blocks"].insert(0, {"id": 1, "parent": 0, "diff": anchor_diff, "time": 0, "txs": [1]})
+    return sc
+
+
+def enum_trees(tier, seed):
+    """quick: every tree of <= 3 blocks with difficulties {1,2,3} (threshold 100 = nothing stabilises) plus
+    a seeded sample of 4-block trees and of small thresholds; thorough: every tree of <= 4 blocks, sample of 5."""
+    rng = random.Random(seed)
+    nets = ["mainnet", "testnet", "regtest"]
+    out = []
+    base = enum_tree_specs(3 if tier == "quick" else 4, (1, 2, 3))
+    for i, spec in enumerate(base):
+        out.append(enum_tree_scenario(spec, i, nets[i % 3], 100))
+    extra = enum_tree_specs(4 if tier == "quick" else 5, (1, 2))
+    rng.shuffle(extra)
+    for i, spec in enumerate(extra[: (150 if tier == "quick" else 2500)]):
+        out.append(enum_tree_scenario(spec, 100000 + i, nets[i % 3], rng.choice([100, 100, 1, 2, 3]), anchor_diff=rng.choice([1, 1, 2])))
+    return out
